@@ -10,6 +10,7 @@
 -/
 import AdaptixModel.Pred.Bound
 import AdaptixProofs.Lemmas.PredSound
+import AdaptixProofs.Lemmas.PredChainSpec
 
 namespace Adaptix.Pred.C10
 
@@ -194,6 +195,59 @@ theorem chain_matches_tail (W : World) (cs : List Checker) (st : LocStack)
       rw [h1, List.take_length_add_append]
     rw [e]; exact this
 
+/-- **What the specification means by "chain"** (the spec function `matchesChain` against the words of the
+    property): a chain of element predicates `fs` matches a stack iff the stack splits into `pre ++ tail` with
+    one tail location per element, and the j-th element holds on the stack cut after the j-th tail location -
+    "the tail satisfies its elements in order".  Holds for every stack (the empty one included) and every list
+    of element predicates; this is the expression-level twin of `chain_matches_tail`. -/
+theorem matchesChain_iff_tail (fs : List (LocStack → Bool)) (st : LocStack) :
+    matchesChain fs st = true ↔
+      ∃ pre tail, st = pre ++ tail ∧ tail.length = fs.length ∧
+        ∀ j (h : j < fs.length), fs[j] (pre ++ tail.take (j + 1)) = true := by
+  simp only [matchesChain, Bool.and_eq_true, decide_eq_true_eq, chainFrom_iff]
+  constructor
+  · rintro ⟨hle, hl, hall⟩
+    exact ⟨_, _, (List.take_append_drop _ st).symm, hl, hall⟩
+  · rintro ⟨pre, tail, rfl, hl, hall⟩
+    have h1 : (pre ++ tail).length - fs.length = pre.length := by simp; omega
+    refine ⟨by simp; omega, ?_, ?_⟩
+    · rw [h1]; simpa using hl
+    · intro j hj
+      rw [h1]
+      simpa using hall j hj
+
+/-- **A `P` chain written as an expression matches exactly the stacks whose tail satisfies its elements in
+    order**: for every accepted `p[item]` (p any pattern expression, of any length) the built checker answers
+    `true` iff the stack is `pre ++ tail`, one tail location per element of the chain, every element of `p`
+    holds at its place and `item` holds on the whole stack. -/
+theorem chain_expr_matches_tail (W : World) (p item : Expr) (c : Checker) (st : LocStack)
+    (hc : createChecker W (.getitem p item) = .ok c) (hne : st ≠ []) :
+    check W c st = .ok true ↔
+      ∃ pre tail, st = pre ++ tail ∧ tail.length = (chain W p).length + 1 ∧
+        (∀ j (h : j < (chain W p).length), (chain W p)[j] (pre ++ tail.take (j + 1)) = true) ∧
+        specMatches W item st = true := by
+  rw [checker_iff_spec W _ c st hc hne]
+  simp only [Except.ok.injEq, specMatches, matchesChain_iff_tail, List.length_append, List.length_cons,
+    List.length_nil, Nat.zero_add]
+  constructor
+  · rintro ⟨pre, tail, rfl, hl, hall⟩
+    refine ⟨pre, tail, rfl, hl, fun j hj => ?_, ?_⟩
+    · have := hall j (by omega)
+      rwa [List.getElem_append_left hj] at this
+    · have := hall (chain W p).length (by omega)
+      rw [List.getElem_append_right (Nat.le_refl _)] at this
+      simp only [List.getElem_singleton] at this
+      rwa [← hl, List.take_length] at this
+  · rintro ⟨pre, tail, rfl, hl, hall, hitem⟩
+    refine ⟨pre, tail, rfl, hl, fun j hj => ?_⟩
+    by_cases hj' : j < (chain W p).length
+    · rw [List.getElem_append_left hj']; exact hall j hj'
+    · have hje : j = (chain W p).length := by omega
+      subst hje
+      rw [List.getElem_append_right (Nat.le_refl _)]
+      simp only [List.getElem_singleton]
+      rwa [← hl, List.take_length]
+
 /-- On the level of expressions: `p[item]` extends the chain of `p` by one element, `p + q` concatenates. -/
 theorem pattern_is_chain (W : World) (p item : Expr) (c : Checker) (st : LocStack)
     (hc : createChecker W (.getitem p item) = .ok c) (hne : st ≠ []) :
@@ -341,11 +395,14 @@ theorem bound_by_any_is_disjunction (W : World) (vs : List Value) (c : Checker) 
 
 /-! ## outside the domain -/
 
-/-- On the empty stack every last-location checker raises `IndexError` (`loc_stack.last`), as the real code
-    does; requests never carry an empty stack. -/
-theorem empty_stack_raises (W : World) :
-    check W (.exactOrigin 0) [] = .error .indexError ∧ check W (.exactFieldName "a") [] = .error .indexError := by
-  constructor <;> rfl
+/-- On the empty stack every last-location checker (all six `LastLocChecker` classes, any parameters) raises
+    `IndexError` (`loc_stack.last`), as the real code does; requests never carry an empty stack.
+    (Audit: previously stated for the two literals `ExactOriginLSC(0)` / `ExactFieldNameLSC("a")` only.) -/
+theorem empty_stack_raises (W : World) (o : Obj) (n : Nat) (s k : String) (pos : Int) :
+    check W (.exactOrigin o) [] = .error .indexError ∧ check W (.originSubclass o) [] = .error .indexError ∧
+    check W (.exactType n) [] = .error .indexError ∧ check W (.exactFieldName s) [] = .error .indexError ∧
+    check W (.reFieldName k) [] = .error .indexError ∧ check W (.genericParam pos) [] = .error .indexError :=
+  ⟨rfl, rfl, rfl, rfl, rfl, rfl⟩
 
 /-! ## non-vacuity: a concrete world -/
 
@@ -385,5 +442,117 @@ example : run demoWorld .P demoStack = .error .valueError := by decide
 example : run demoWorld (.getitem .P (.getitem .P (.ty 0))) demoStack = .error .typeError := by decide
 example : run demoWorld (.ty 0) [] = .error .indexError := by decide
 example : plainName "name" := by unfold plainName; decide
+
+/-! ## witnesses: the hypotheses of every conditional theorem above hold TOGETHER on non-degenerate data
+
+  (a world with a concrete class, an abstract class and subclasses of both; stacks of two locations; expressions
+  with chains of two elements and nested combinators).  Each `example` instantiates the theorem itself, so the
+  conclusion shown is the one the theorem delivers. -/
+
+/-- root of type C, then a field `x` of type CSub -/
+def stackCSub : LocStack :=
+  [{ cls := .typeHintLoc, type := 0 }, { cls := .inputFieldLoc, type := 3, fieldId := "x" }]
+
+/-- `P[C].name | ~(P[A] & P.age)` -/
+def demoExpr : Expr :=
+  .bin .or (.getattr (.getitem .P (.ty 0)) "name") (.invert (.bin .and (.getitem .P (.ty 1)) (.getattr .P "age")))
+
+/-- `checker_iff_spec`, `accepted_checker_total`: a nested expression is accepted, the stack has two locations -/
+example : ∃ c, createChecker demoWorld demoExpr = .ok c ∧ demoStack ≠ [] ∧
+    check demoWorld c demoStack = .ok (specMatches demoWorld demoExpr demoStack) ∧
+    specMatches demoWorld demoExpr demoStack = true := by
+  refine ⟨_, rfl, by decide, checker_iff_spec demoWorld demoExpr _ demoStack rfl (by decide), by decide⟩
+
+/-- `class_pred_concrete`: the concrete class C against a location of type CSub (a subclass): no match -/
+example : check demoWorld (.exactOrigin 0) stackCSub = .ok false :=
+  class_pred_concrete demoWorld 0 0 (.exactOrigin 0) stackCSub { cls := .inputFieldLoc, type := 3, fieldId := "x" }
+    (by decide) (by decide) (by decide) (Or.inr (by decide)) (by decide) (by decide) (by rfl) (by decide)
+
+/-- `class_pred_abstract_or_protocol`: the abstract class A against a location of type AImpl: match -/
+example : check demoWorld (.originSubclass 1) demoStack = .ok true :=
+  class_pred_abstract_or_protocol demoWorld 1 1 (.originSubclass 1) demoStack
+    { cls := .inputFieldLoc, type := 2, fieldId := "name" }
+    (by decide) (by decide) (by decide) (Or.inr (by decide)) (Or.inl (by decide)) (by rfl) (by decide)
+
+/-- `string_pred`: an identifier (exact comparison) and a regex (full match) -/
+example : check demoWorld (.exactFieldName "name") demoStack = .ok true :=
+  string_pred demoWorld "name" _ demoStack { cls := .inputFieldLoc, type := 2, fieldId := "name" } (by rfl) (by decide)
+example : check demoWorld (.reFieldName "na.*") demoStack = .ok true :=
+  string_pred demoWorld "na.*" _ demoStack { cls := .inputFieldLoc, type := 2, fieldId := "name" } (by rfl) (by decide)
+
+/-- a world whose regex engine treats identifiers as literals (what `re` does) -/
+def reWorld : World :=
+  { demoWorld with reFullmatch := fun k f => k == f || (k == "na.*" && (f == "name" || f == "nap")) }
+
+/-- `string_pred_is_regex`: the hypothesis `hre` holds for the identifier "name" in `reWorld` (not vacuously:
+    "name" IS an identifier there), together with the other hypotheses -/
+example : reWorld.isIdentifier "name" = true ∧ check reWorld (.exactFieldName "name") demoStack = .ok true := by
+  have hre : ∀ f, reWorld.isIdentifier "name" = true → reWorld.reFullmatch "name" f = ("name" == f) := by
+    intro f _
+    show ("name" == f || (("name" : String) == "na.*" && (f == "name" || f == "nap"))) = ("name" == f)
+    have : (("name" : String) == "na.*") = false := by decide
+    simp [this]
+  refine ⟨by decide, ?_⟩
+  exact string_pred_is_regex reWorld "name" _ demoStack { cls := .inputFieldLoc, type := 2, fieldId := "name" }
+    hre (by rfl) (by decide)
+
+/-- `end_checker_tail`, `chain_matches_tail`, `nary_checkers`: a chain of two well-formed checkers that holds on
+    `demoStack`, and the split of the stack the theorem delivers -/
+example : ∃ pre tail, demoStack = pre ++ tail ∧ tail.length = 2 ∧
+    ∀ j (h : j < 2), check demoWorld [Checker.exactOrigin 0, .exactFieldName "name"][j] (pre ++ tail.take (j + 1)) = .ok true := by
+  have hw : ∀ c ∈ [Checker.exactOrigin 0, .exactFieldName "name"], c.wf = true := by
+    intro c hc
+    simp only [List.mem_cons, List.mem_nil_iff, or_false] at hc
+    rcases hc with rfl | rfl <;> rfl
+  exact (chain_matches_tail demoWorld _ demoStack hw (by decide)).mp (by decide)
+
+example : check demoWorld (.xor [.exactOrigin 0, .exactFieldName "name", .any]) demoStack = .ok false := by
+  have hw : ∀ c ∈ [Checker.exactOrigin 0, .exactFieldName "name", .any], c.wf = true := by
+    intro c hc
+    simp only [List.mem_cons, List.mem_nil_iff, or_false] at hc
+    rcases hc with rfl | rfl | rfl <;> rfl
+  rw [(nary_checkers demoWorld _ demoStack hw (by decide)).2.2 (by simp)]
+  decide
+
+/-- `binop_pointwise`, `invert_pointwise`: `P[A] ^ P.age`, all three expressions accepted -/
+example : ∃ x y, check demoWorld (.originSubclass 1) demoStack = .ok x ∧ check demoWorld (.exactFieldName "age") demoStack = .ok y ∧
+    check demoWorld (.xor [.originSubclass 1, .exactFieldName "age"]) demoStack = .ok (x ^^ y) :=
+  binop_pointwise demoWorld .xor (.getitem .P (.ty 1)) (.getattr .P "age") _ _ _ demoStack (by rfl) (by rfl) (by rfl)
+    (by decide)
+example : ∃ x, check demoWorld (.originSubclass 1) demoStack = .ok x ∧
+    check demoWorld (.invert (.originSubclass 1)) demoStack = .ok (!x) :=
+  invert_pointwise demoWorld (.getitem .P (.ty 1)) _ _ demoStack (by rfl) (by rfl) (by decide)
+
+/-- `pattern_is_chain`, `chain_expr_matches_tail`, `tuple_is_some`: accepted chain / alternative expressions -/
+example : ∃ pre tail, demoStack = pre ++ tail ∧ tail.length = (chain demoWorld (.getitem .P (.ty 0))).length + 1 ∧
+    (∀ j (h : j < (chain demoWorld (.getitem .P (.ty 0))).length),
+      (chain demoWorld (.getitem .P (.ty 0)))[j] (pre ++ tail.take (j + 1)) = true) ∧
+    specMatches demoWorld (.str "name") demoStack = true :=
+  (chain_expr_matches_tail demoWorld (.getitem .P (.ty 0)) (.str "name")
+    (.locStackEnd [.exactOrigin 0, .exactFieldName "name"]) demoStack (by rfl) (by decide)).mp (by decide)
+example : check demoWorld (.or [.exactOrigin 0, .exactFieldName "name", .originSubclass 1]) demoStack =
+    .ok ([Expr.ty 0, .str "name", .ty 1].any fun a => specMatches demoWorld a demoStack) :=
+  tuple_is_some demoWorld [.ty 0, .str "name", .ty 1] _ demoStack (by rfl) (by decide)
+
+/-- the identities: their side conditions hold for the expressions the documentation writes -/
+example : createChecker demoWorld (.getitem .P (.ty 0)) = createChecker demoWorld (.ty 0) :=
+  identity_P_item demoWorld (.ty 0) (by intro s h; simp [eval] at h)
+example : eval demoWorld (.add (.getitem .P (.ty 0)) (.getattr .P "name")) = eval demoWorld (.getattr (.getitem .P (.ty 0)) "name") :=
+  identity_add_getattr demoWorld (.getitem .P (.ty 0)) "name" [.exactOrigin 0] (by rfl) (by unfold plainName; decide)
+example : eval demoWorld (.getitemTuple .P [.ty 0, .ty 1]) = eval demoWorld (.bin .or (.getitem .P (.ty 0)) (.getitem .P (.ty 1))) :=
+  identity_tuple_or demoWorld (.ty 0) (.ty 1) (.ty 0) (.ty 1) rfl rfl
+
+/-- `bound_is_conjunction`, `bound_by_any_is_disjunction` -/
+example : (processRequestChecker (.originSubclass 1) true (.located (.exactFieldName "name"))).check demoWorld (fun _ => false) demoStack
+    = .ok (true && true) :=
+  (bound_is_conjunction demoWorld (fun _ => false) (.originSubclass 1) (.exactFieldName "name") demoStack true true
+    (by decide) (by decide)).1
+example : check demoWorld (.or [.exactFieldName "name", .exactOrigin 0]) demoStack =
+    .ok ([Checker.exactFieldName "name", .exactOrigin 0].any fun c => checkB demoWorld c demoStack) := by
+  have hw : ∀ c ∈ [Checker.exactFieldName "name", .exactOrigin 0], c.wf = true := by
+    intro c hc
+    simp only [List.mem_cons, List.mem_nil_iff, or_false] at hc
+    rcases hc with rfl | rfl <;> rfl
+  exact bound_by_any_is_disjunction demoWorld [.str "name", .ty 0] _ demoStack (by rfl) (by decide) _ (by rfl) hw
 
 end Adaptix.Pred.C10
